@@ -75,6 +75,9 @@ func Changes(cmd CommandRunner, baseBranch string, filter PathFilter) ([]*FileCh
 
 	var changes []*FileChange
 	var commit string
+	// All commits on this branch, a line that git blame assigns to any of them was touched on the
+	// branch, including lines that came from another file that was copied or moved here.
+	var branchCommits []string
 	s := bufio.NewScanner(bytes.NewReader(out))
 	for s.Scan() {
 		line := s.Text()
@@ -88,6 +91,7 @@ func Changes(cmd CommandRunner, baseBranch string, filter PathFilter) ([]*FileCh
 		if len(parts) == 1 {
 			if parts[0] != "" {
 				commit = parts[0]
+				branchCommits = append(branchCommits, commit)
 			}
 			continue
 		}
@@ -204,7 +208,7 @@ func Changes(cmd CommandRunner, baseBranch string, filter PathFilter) ([]*FileCh
 			slog.Debug("File was turned into a symlink", slog.String("path", change.Path.After.Name))
 			change.Body.ModifiedLines = CountLines(change.Body.After)
 		case change.Path.Before.Type != Missing && change.Path.After.Type != Missing && change.Path.After.Type != Symlink:
-			change.Body.ModifiedLines, err = getModifiedLines(cmd, change.Commits, change.Path.After.EffectivePath(), lastCommit)
+			change.Body.ModifiedLines, err = getModifiedLines(cmd, branchCommits, change.Path.After.EffectivePath(), lastCommit)
 			if err != nil {
 				return nil, fmt.Errorf("failed to run git blame for %s: %w", change.Path.After.EffectivePath(), err)
 			}
